@@ -727,7 +727,84 @@ class C10Executor(Executor):
             return VType(name)
         return super().global_name(name, node)
 
+    # -- a PLAIN class of the module (no bases, decorators, metaclass, __new__, class-level state): `C(args)` allocates an object and
+    #    runs the real __init__ on it; its methods are executed in place (engine: obj_method).  `with C(args) [as v]: body` over
+    #    such a class that defines __enter__ / __exit__ is executed as its definition (PEP 343): enter; try: body; except: if not
+    #    exit(type, exc, tb): raise; finally (no exception): exit(None, None, None).  The exception TYPE and the traceback handed
+    #    to __exit__ are unknown values (an __exit__ that decides by them is `unknown`); the exception object is the real one.
+    def _plain_class(self, name):
+        node = self.module.classes.get(name)
+        if node is None or node.bases or node.keywords or node.decorator_list or "." in name:
+            return None
+        for b in node.body:
+            if isinstance(b, (ast.FunctionDef,)):
+                if b.name in ("__new__", "__getattr__", "__getattribute__", "__setattr__", "__init_subclass__") or b.decorator_list:
+                    return None
+            elif isinstance(b, ast.Expr) and isinstance(b.value, ast.Constant):
+                continue                       # docstring
+            elif isinstance(b, ast.Pass):
+                continue
+            else:
+                return None
+        return node
+
+    def _construct_plain(self, st, name, args, kwargs, node):
+        obj = VRef(st.alloc(HeapObj("obj", {}, name), self.refs))
+        if f"{name}.__init__" not in self.module.functions:
+            if args or kwargs:
+                self.raise_in(st, self.mk_exc("TypeError"))
+                return []
+            return [(st, obj)]
+        return [(s2, obj) for (s2, _r) in self.obj_method(st, obj, "__init__", args, kwargs, node)]
+
+    _with_cache = None
+
+    def s_With(self, s, st):
+        rewritten = self._with_as_protocol(s)
+        if rewritten is None:
+            return super().s_With(s, st)
+        et, tb, stmts = rewritten
+        st.bind(et, VUnk("exc_type"))
+        st.bind(tb, VUnk("traceback"))
+        return self.exec_block(stmts, st)
+
+    def _with_as_protocol(self, s):
+        if self._with_cache is None:
+            self._with_cache = {}
+        if id(s) in self._with_cache:
+            return self._with_cache[id(s)][1]
+        out = None
+        item = s.items[0]
+        e = item.context_expr
+        if isinstance(e, ast.Call) and isinstance(e.func, ast.Name) and self._plain_class(e.func.id) is not None and \
+                f"{e.func.id}.__enter__" in self.module.functions and f"{e.func.id}.__exit__" in self.module.functions:
+            k = len(self._with_cache)
+            cm, ok, ex_, et, tb = (f"_c10_with{k}_{x}" for x in ("cm", "ok", "exc", "type", "tb"))
+            body = list(s.body) if len(s.items) == 1 else [ast.With(items=list(s.items[1:]), body=list(s.body))]
+            L, N = (lambda x: ast.Name(id=x, ctx=ast.Load())), (lambda x: ast.Name(id=x, ctx=ast.Store()))
+            call = lambda m, a: ast.Call(func=ast.Attribute(value=L(cm), attr=m, ctx=ast.Load()), args=a, keywords=[])      # noqa: E731
+            enter = call("__enter__", [])
+            stmts = [ast.Assign(targets=[N(cm)], value=e),
+                     ast.Assign(targets=[item.optional_vars], value=enter) if item.optional_vars is not None else ast.Expr(value=enter),
+                     ast.Assign(targets=[N(ok)], value=ast.Constant(value=True)),
+                     ast.Try(body=[ast.Try(body=body, handlers=[ast.ExceptHandler(type=L("BaseException"), name=ex_, body=[
+                         ast.Assign(targets=[N(ok)], value=ast.Constant(value=False)),
+                         ast.If(test=ast.UnaryOp(op=ast.Not(), operand=call("__exit__", [L(et), L(ex_), L(tb)])), body=[ast.Raise(exc=None, cause=None)], orelse=[])])],
+                         orelse=[], finalbody=[])],
+                         handlers=[], orelse=[],
+                         finalbody=[ast.If(test=L(ok), body=[ast.Expr(value=call("__exit__", [ast.Constant(value=None)] * 3))], orelse=[])])]
+            for x in stmts:
+                ast.copy_location(x, s)
+                ast.fix_missing_locations(x)
+            out = (et, tb, stmts)
+        self._with_cache[id(s)] = (s, out)           # the node is kept alive with its rewriting (ids are recycled otherwise)
+        return out
+
     def construct(self, st, t, args, kwargs, node):
+        if isinstance(t, VType) and not self.uni.known(t.name) and ("new", t.name) not in self.reg.ext_models and \
+                self._namedtuple_fields(t.name) is None and self.namedtuple_fields(t.name) is None and self.dataclass_fields(t.name) is None and \
+                self._plain_class(t.name) is not None:
+            return self._construct_plain(st, t.name, args, kwargs, node)
         fields = self._namedtuple_fields(t.name) if isinstance(t, VType) else None
         if fields is not None:
             names = [f for f, _d in fields]
